@@ -1,12 +1,121 @@
 import Driver.Tok
-/- line-protocol handlers of this area; see docs/AGENT_GUIDE.md -/
+import BpModel.Typing
+/- line-protocol handlers of the Typing area (C18).  Every string travels as the hex of
+   its ASCII bytes (`-` = empty) because tokens are split on spaces.
+
+   TYPING <direct|root|310> <optional|list|dict|union|iterable|async_iterable|async_iterator> <hex>*  -> hex
+   TSITE <compiler> <site> <hexIn> <hexOut>       -> hex   (repaired template)
+   TSITEPRE <compiler> <site> <hexIn> <hexOut>    -> hex   (template before the D07 fix)
+   TWQ <hex>                                      -> 1 | 0      (wellQuoted)
+   TDENOTE <hex>                                  -> shape | none
+   TFIELD <compiler> <pydantic 0|1> <field…>      -> hex of get_field_string()
+   TFIELDSHAPE <compiler> <pydantic> <field…>     -> shape the model says the annotation denotes
+   field… = pyName number fieldType kind(s|r|w) pyType useBuiltins repeated proto3opt group|- wraps|- isMap mapK vkind mapV protoK protoV -/
 namespace Drv
+open Bp.Typing
 
 structure TypingSt where
   dummy : Unit := ()
 
-def handleTyping (st : TypingSt) (_toks : List String) : Option (TypingSt × String) :=
-  let _ := st
-  none
+def hexStr (s : String) : Option Str := (parseHex s).map fun bs => bs.map Char.ofNat
+def strHex (s : Str) : String := toHex (s.map Char.toNat)
+
+def compilerOf : String → Option Compiler
+  | "direct" => some .direct
+  | "root" => some .root
+  | "310" => some .c310
+  | _ => none
+
+def siteOf : String → Option Site
+  | "stubUnaryParam" => some .stubUnaryParam
+  | "stubIterParam" => some .stubIterParam
+  | "stubTimeout" => some .stubTimeout
+  | "stubDeadline" => some .stubDeadline
+  | "stubMetadata" => some .stubMetadata
+  | "stubReturnUnary" => some .stubReturnUnary
+  | "stubReturnStream" => some .stubReturnStream
+  | "baseUnaryParam" => some .baseUnaryParam
+  | "baseIterParam" => some .baseIterParam
+  | "baseReturnUnary" => some .baseReturnUnary
+  | "baseReturnStream" => some .baseReturnStream
+  | "rpcStream" => some .rpcStream
+  | "mappingReturn" => some .mappingReturn
+  | _ => none
+
+partial def showShape : Shape → String
+  | .nm n => "nm:" ++ String.ofList n
+  | .app1 h a => "app(" ++ String.ofList h ++ "," ++ showShape a ++ ")"
+  | .app2 h a b => "app(" ++ String.ofList h ++ "," ++ showShape a ++ "," ++ showShape b ++ ")"
+  | .or a b => "or(" ++ showShape a ++ "," ++ showShape b ++ ")"
+
+def showOptShape : Option Shape → String
+  | some s => showShape s
+  | none => "none"
+
+def optHex (s : String) : Option (Option Str) := if s == "-" then some none else
+  -- a present-but-empty value is written `=`
+  if s == "=" then some (some []) else (hexStr s).map some
+
+def pyTOf (kind : String) (n : Str) : Option PyT :=
+  match kind with
+  | "s" => some (.scalar n)
+  | "r" => some (.ref n)
+  | "w" => some (.wrapped n)
+  | _ => none
+
+def parseFieldDesc : List String → Option FieldDesc
+  | [pyName, number, fieldType, kind, pyType, ub, rep, opt, grp, wraps, isMap, mapK, vkind, mapV, protoK, protoV] => do
+    let pyName ← hexStr pyName
+    let number ← parseNat number
+    let fieldType ← hexStr fieldType
+    let pt ← (hexStr pyType).bind (pyTOf kind)
+    let grp ← optHex grp
+    let wraps ← optHex wraps
+    let mapK ← hexStr mapK
+    let mv ← (hexStr mapV).bind (pyTOf vkind)
+    let protoK ← hexStr protoK
+    let protoV ← hexStr protoV
+    some { pyName := pyName, number := number, fieldType := fieldType, pyType := pt, useBuiltins := ub == "1",
+           repeated := rep == "1", proto3Optional := opt == "1", group := grp, wraps := wraps, isMap := isMap == "1",
+           mapK := mapK, mapV := mv, protoK := protoK, protoV := protoV }
+  | _ => none
+
+def handleTyping (st : TypingSt) : List String → Option (TypingSt × String)
+  | "TYPING" :: c :: m :: args => do
+    let c ← compilerOf c
+    let args ← args.mapM hexStr
+    let r ← match m, args with
+      | "optional", [t] => some (optional c t)
+      | "list", [t] => some (list c t)
+      | "dict", [k, v] => some (dict c k v)
+      | "union", ts => some (union c ts)
+      | "iterable", [t] => some (iterable c t)
+      | "async_iterable", [t] => some (asyncIterable c t)
+      | "async_iterator", [t] => some (asyncIterator c t)
+      | _, _ => none
+    some (st, strHex r)
+  | ["TSITE", c, s, tin, tout] => do
+    let c ← compilerOf c
+    let s ← siteOf s
+    let tin ← hexStr tin
+    let tout ← hexStr tout
+    some (st, strHex (siteText c tin tout s))
+  | ["TSITEPRE", c, s, tin, tout] => do
+    let c ← compilerOf c
+    let s ← siteOf s
+    let tin ← hexStr tin
+    let tout ← hexStr tout
+    some (st, strHex (siteTextPre c tin tout s))
+  | ["TWQ", h] => (hexStr h).map fun s => (st, if wellQuoted s then "1" else "0")
+  | ["TDENOTE", h] => (hexStr h).map fun s => (st, showOptShape (denote s))
+  | "TFIELD" :: c :: pyd :: rest => do
+    let c ← compilerOf c
+    let fd ← parseFieldDesc rest
+    some (st, strHex (fieldString c (pyd == "1") fd))
+  | "TFIELDSHAPE" :: c :: pyd :: rest => do
+    let _ ← compilerOf c
+    let fd ← parseFieldDesc rest
+    some (st, showShape (shapeOf (annotationTy (pyd == "1") fd)))
+  | _ => none
 
 end Drv
